@@ -49,7 +49,8 @@ def build_overlay(m: Mutant) -> dict[str, str] | None:
     return overlay
 
 
-def _run_one(m: Mutant) -> dict:
+def _run_one(arg) -> dict:
+    m, baseline = arg
     from .run import run_property
 
     overlay = build_overlay(m)
@@ -63,6 +64,7 @@ def _run_one(m: Mutant) -> dict:
             return {"name": m.name, "status": "ok", "how": f"analysis-error: {e}"[:200]}
         return {"name": m.name, "status": "FAILED", "why": f"benign variant raised analysis error: {e}"[:300]}
     _, new = rep.split_known()
+    new = [f for f in new if f.key not in baseline]  # only what the variant adds to the unmodified tree
     if m.expect == "silent":
         if new:
             return {"name": m.name, "status": "FAILED", "why": "benign variant reported: " + "; ".join(f.key for f in new)[:300]}
@@ -82,12 +84,12 @@ def mutants_for(pid: str) -> list[Mutant]:
     return [m for m in mod.MUTANTS if m.prop == pid]
 
 
-def run_for(pid: str, quiet: bool = False) -> dict:
+def run_for(pid: str, quiet: bool = False, baseline_keys=()) -> dict:
     ms = mutants_for(pid)
     if not ms:
         return {"variants": 0}
     with ProcessPoolExecutor(max_workers=min(16, len(ms))) as ex:
-        results = list(ex.map(_run_one, ms))
+        results = list(ex.map(_run_one, [(m, frozenset(baseline_keys)) for m in ms]))
     failed = [r for r in results if r["status"] == "FAILED"]
     summary = {
         "variants": len(ms),
